@@ -7,6 +7,28 @@ HERE = os.path.dirname(os.path.dirname(os.path.abspath(__file__)))
 
 # id -> (category, technique, text, note, design_ref)
 CHECKS = {
+    "C01": ("exploration", "shadow-copy oracle: real KeyGen/EDBSetup/TokenGen/Search vs the plaintext database over a configuration grid x 9 database classes",
+            "Tens of thousands of (scheme, configuration, database) cases per run: every parameter of every scheme is "
+            "moved off its default, and databases are generated FOR the configuration in nine classes that include the "
+            "boundaries named by the property (1x1, single list of 2^j, N = 2^t +- 1, block/level edges that reach "
+            "Pi2Lev's medium and large cases, shared identifiers, zero-rich identifiers). Every stored keyword's "
+            "result is compared with a deep copy of the plaintext taken before setup; any exception on a valid input "
+            "is a refutation. Inconclusive unless every scheme, class, boundary tag and _Search function was observed.",
+            "Sampling of an infinite input space; valid-database definition as in the property; oracle in props/_search_engine.py.",
+            "DESIGN.md §3 C01"),
+    "C02": ("exploration", "same engine as C01 judged on absent keywords (random and adversarially close families)",
+            "For every generated (scheme, configuration, database) twelve absent keywords are searched: random ones "
+            "and close ones (prefix, suffix, +NUL, flipped last byte, doubled, upper-cased, a stored identifier used as "
+            "keyword). A non-empty result or any exception is a refutation.",
+            "Absent keywords are drawn from the stored keywords' domain; oracle is the constant 'empty'.",
+            "DESIGN.md §3 C02"),
+    "C07": ("exploration", "before/after snapshot monitors + history checker against single-search baselines on a private deserialized index",
+            "Deep copies of database, configuration dict (including the module-level DEFAULT_CONFIG passed by "
+            "reference) and key bytes are compared after construction and EDBSetup; EDB bytes before/after a seeded "
+            "history of 12..62 searches (present + absent, repeated) and token bytes around every search; every result "
+            "in the history must equal the answer of a single search on a private deserialized copy.",
+            "pickle output of an unchanged index is byte-stable (checked each case); sampling of histories.",
+            "DESIGN.md §3 C07"),
     "C14": ("exploration", "post-condition monitors + independent recomputation of every ciphertext (PKCS7 + AES-CBC with the observed IV)",
             "The real AES-CBC wrapper (obtained by name, as the schemes do) is driven with all message lengths 0..80 "
             "for each key length and several keys, random lengths to 4096 biased to block boundaries, related keys, "
